@@ -78,6 +78,38 @@ NEEDS = {
             'supercell period not longer than a cluster (cluster wraps onto the same site)'),
     'C36': ('vacancyThermoKinetics.__ne__: fast path on different hashes',
             'two distinct keys equal within allclose tolerance but different in some bit, compared with !='),
+    # second wave (a different mechanism / location was requested)
+    'C01b': ('VectorStarSet.generateouter: upper-triangle loop mirrors blocks without the Cartesian transpose (same slip as seeded C03, found independently)',
+             'point group allowing an antisymmetric invariant tensor and a bias component on a perpendicular vector star (binding or omega1 != omega0)'),
+    'C03b': ('Interstitial.diffusivity / elastodiffusion: projected rate matrix filled for b >= a only',
+             'pseudo-inverse branch (no inversion or disconnected network) with >= 2 vector-basis functions'),
+    'C07b': ('Lij step 2: thermodynamic stars written through a slice starting at thermo2kin[0] (same slip as seeded C01, found independently)',
+             'Nthermo pair (2,3) on simple cubic / BCC, interaction on the farthest thermodynamic star'),
+    'C11b': ('Interstitial.diffusivity(CalcDeriv=True): the two bias-derivative cross terms merged into 2 x one of them',
+             'NV > 1 and a point group allowing an antisymmetric second-rank tensor'),
+    'C12b': ('Interstitial.symmratelist: prefactor normalisation invsqrtpre[i] * invsqrtpre[i]',
+             'jump between two Wyckoff sets with different site prefactors'),
+    'C13b': ('Cluster._asdict: "elif vacancy" drops the vacancy flag of transition-state clusters',
+             'YAML round trip of a cluster with transition=True and vacancy=True (makeTSclusters on vacancy clusters)'),
+    'C14b': ('GFCrystalcalc.SetRates keeps its cut-off function tables between calls (rebuilt only when pmax or the term list changes)',
+             'history: two cache-missing evaluations on one calculator with equal pmax but different anisotropy (HCP, pyramidal >= basal rate)'),
+    'C18b': ('gengroup: vector spins rotated with the transpose (np.dot(s, cartrot))',
+             'non-collinear vector spins and operations that are not their own inverse (3-, 4-, 6-fold, rotoinversions)'),
+    'C20b': ('genpoint: "one atom of that chemistry" shortcut returns the space-group operations unshifted',
+             'species with exactly one site per cell that is not at the origin (B2 centre, perovskite B site)'),
+    'C23b': ('', ''),
+    'C24b': ('StarSet.generate continues from the previous outermost shell and seeds with the old states',
+             'history: generate(N, originstates=True) then generate(M > N, originstates=False) on one object'),
+    'C28b': ('Supercell.POSCAR omits the count entry of an empty interstitial species',
+             'supercell with declared interstitial sublattice, currently empty, and an occupied species of higher index; POSCAR -> POSCAR_occ'),
+    'C29b': ('makesupercells size check loops over one representative per kinetic star',
+             'supercell that breaks the point symmetry (5x3x3 ...) or whose half-length equals a shell distance'),
+    'C30b': ('supercelltar builds the Makefile by extending a module-level list in place',
+             'history: a second archive written in the same process'),
+    'C31b': ('ClusterSite.g memoises site images in a class-level dict keyed by (g, site) without the crystal',
+             'history: two crystals in one process sharing an equal group operation with the same site label on different special positions'),
+    'C34b': ('makeTSclusters (vacancy branch): forward orbit appended before the reverse clusters are united into a new set',
+             'vacancy sampler with TS clusters whose reverse is not a symmetry image of the forward cluster (range beyond first neighbours, low symmetry)'),
 }
 
 
